@@ -118,6 +118,10 @@ def bound_column(rqjson):
 
 
 HOOK = "verif:lowerer_op"
+OPS_SEEN = {}
+KNOWN_OPS = {"extern", "table", "relation_begin", "relation_end", "instance", "push", "declare", "redirect", "loop_begin", "loop_end", "reserve", "inline_table",
+             "leaf", "push_select", "window_set", "window_take", "window_reset",
+             "lookup_in", "lookup_out", "lookup_all", "selected_all"}      # the last four: hooks lookup-cid / selected-all (reads of the node mapping), ignored
 
 
 def trace_passthroughs(src, entries):
@@ -173,6 +177,11 @@ def trace_passthroughs(src, entries):
         except ValueError:
             continue
         op, dd = d.get("op"), d.get("d") or {}
+        OPS_SEEN[op] = OPS_SEEN.get(op, 0) + 1
+        if op in ("window_set", "window_take", "window_reset"):
+            # hook lowerer-window (435d73d, C04's): when the Lowerer's window field is set / taken / reset -- bookkeeping of
+            # partition and frame, no expression is built there: accepted and ignored
+            continue
         if op == "instance":
             for c in dd.get("columns") or []:
                 if isinstance(c, list) and len(c) == 2 and isinstance(c[1], int):
@@ -757,6 +766,8 @@ def run():
     ck.coverage["lowerer_trace"] = {"programs": len(traced), "hook_lines": hook_lines,
                                     "programs_that_reached_lowering": sum(1 for c in traced if c["trace"]["lines"] > 0),
                                     "of_which_rejected_later": sum(1 for c in traced if c["trace"]["lines"] > 0 and not c["trace"]["ok"])}
+    ck.coverage["lowerer_trace"]["ops"] = dict(sorted(OPS_SEEN.items()))
+    ck.coverage["lowerer_trace"]["unknown_ops"] = sorted(k_ for k_ in OPS_SEEN if k_ not in KNOWN_OPS)
     if traced and hook_lines == 0:
         ck.violation("the tree under test does not emit `verif:lowerer_op` lines (hook lowerer-op-trace, 120eb8c, is missing or the harness was built without cfg(prqlc_verif)): the passthrough oracle cannot run",
                      {"kind": "hook-missing", "hook": HOOK}, no_input=True)
